@@ -388,6 +388,206 @@ def gen_loops():
     return '\n'.join(out)
 
 
+class BodyTr:
+    """Translate the body of a `for` loop (assignments, tuple-unpacking calls of a parameter function,
+    `x &= ~y`, `a[j] = e`, `if/else`, `continue`, and one kind of emission: `yield e` or `<stack>.append(e)`)
+    into a Lean function from the loop variables and the state to the new state. Statements are translated
+    in continuation style: `continue` ends the body with the state as it is."""
+
+    BIN = {ast.BitAnd: '&&&', ast.BitOr: '|||', ast.Add: '+', ast.Sub: '-'}
+
+    def __init__(self, names, funcs, arrays, state, emit_to, strip_calls=(), reads=None, drop_names=()):
+        self.names = dict(names)          # python name -> lean name (read-only values)
+        self.funcs = dict(funcs)          # python callable name -> lean name
+        self.arrays = set(arrays)         # mutable list state variables (Array Nat)
+        self.state = list(state)          # state variables, in tuple order
+        self.emit_to = emit_to            # state variable collecting the emissions
+        self.strip_calls = set(strip_calls)   # identity wrappers: Objects.fromint(e) -> e
+        self.reads = dict(reads or {})    # dotted read-only sequence -> lean function name
+        self.drop_names = set(drop_names)     # names dropped from emitted tuples (shared references)
+
+    def expr(self, node, env):
+        if isinstance(node, ast.Constant) and isinstance(node.value, int) and not isinstance(node.value, bool) and node.value >= 0:
+            return str(node.value)
+        if isinstance(node, ast.Name):
+            if node.id in env:
+                return env[node.id]
+            raise Decline('unknown variable %s' % node.id)
+        if isinstance(node, ast.Tuple):
+            elts = [e for e in node.elts if not (isinstance(e, ast.Name) and e.id in self.drop_names)]
+            return '(%s)' % ', '.join(self.expr(e, env) for e in elts)
+        if isinstance(node, ast.Subscript):
+            base = dotted(node.value)
+            if base in self.reads:
+                return '(%s %s)' % (self.reads[base], self.expr(node.slice, env))
+            if isinstance(node.value, ast.Name) and node.value.id in self.arrays and node.value.id in env:
+                return '%s[%s]!' % (env[node.value.id], self.expr(node.slice, env))
+            raise Decline('unsupported subscript %s' % ast.unparse(node))
+        if isinstance(node, ast.Call):
+            name = dotted(node.func)
+            if name in self.strip_calls and len(node.args) == 1 and not node.keywords:
+                return self.expr(node.args[0], env)
+            if name in self.funcs and len(node.args) == 1 and not node.keywords:
+                return '(%s %s)' % (self.funcs[name], self.expr(node.args[0], env))
+            raise Decline('unsupported call %s' % ast.unparse(node))
+        if isinstance(node, ast.BinOp) and type(node.op) in self.BIN:
+            # a & ~b on non-negative a is the set difference
+            if isinstance(node.op, ast.BitAnd) and isinstance(node.right, ast.UnaryOp) and isinstance(node.right.op, ast.Invert):
+                return '(andNot %s %s)' % (self.expr(node.left, env), self.expr(node.right.operand, env))
+            return '(%s %s %s)' % (self.expr(node.left, env), self.BIN[type(node.op)], self.expr(node.right, env))
+        raise Decline('unsupported expression %s' % ast.unparse(node))
+
+    def cond(self, node, env):
+        if isinstance(node, ast.UnaryOp) and isinstance(node.op, ast.Not):
+            return '%s = 0' % self.expr(node.operand, env)
+        if isinstance(node, ast.Compare) and len(node.ops) == 1 and isinstance(node.ops[0], ast.Eq):
+            return '%s = %s' % (self.expr(node.left, env), self.expr(node.comparators[0], env))
+        return '%s ≠ 0' % self.expr(node, env)
+
+    def final(self, env):
+        return '(%s)' % ', '.join(env[v] for v in self.state)
+
+    def block(self, stmts, env, ind):
+        """Returns lines of a Lean term evaluating to the final state tuple."""
+        if not stmts:
+            return [ind + self.final(env)]
+        st, rest = stmts[0], stmts[1:]
+        if isinstance(st, ast.Continue):
+            return [ind + self.final(env)]
+        if isinstance(st, ast.Assign) and len(st.targets) == 1:
+            tgt = st.targets[0]
+            if isinstance(tgt, ast.Name):
+                if tgt.id in self.state and tgt.id != self.emit_to and tgt.id not in env:
+                    raise Decline('state variable %s not initialised' % tgt.id)
+                line = '%slet %s := %s' % (ind, tgt.id, self.expr(st.value, env))
+                return [line] + self.block(rest, dict(env, **{tgt.id: tgt.id}), ind)
+            if isinstance(tgt, ast.Tuple) and all(isinstance(e, ast.Name) for e in tgt.elts):
+                names = [e.id for e in tgt.elts]
+                line = '%slet (%s) := %s' % (ind, ', '.join(names), self.expr(st.value, env))
+                return [line] + self.block(rest, dict(env, **{n: n for n in names}), ind)
+            if isinstance(tgt, ast.Subscript) and isinstance(tgt.value, ast.Name) and tgt.value.id in self.arrays:
+                a = tgt.value.id
+                line = '%slet %s := %s.set! %s %s' % (ind, a, env[a], self.expr(tgt.slice, env), self.expr(st.value, env))
+                return [line] + self.block(rest, dict(env, **{a: a}), ind)
+            raise Decline('unsupported assignment %s' % ast.unparse(st))
+        if isinstance(st, ast.AugAssign) and isinstance(st.target, ast.Name) and isinstance(st.op, ast.BitAnd):
+            x = st.target.id
+            if isinstance(st.value, ast.UnaryOp) and isinstance(st.value.op, ast.Invert):
+                line = '%slet %s := andNot %s %s' % (ind, x, env[x], self.expr(st.value.operand, env))
+            else:
+                line = '%slet %s := %s &&& %s' % (ind, x, env[x], self.expr(st.value, env))
+            return [line] + self.block(rest, dict(env, **{x: x}), ind)
+        if isinstance(st, ast.Expr):
+            v = st.value
+            emitted = None
+            if isinstance(v, ast.Yield) and v.value is not None and self.emit_to == 'out':
+                emitted = v.value
+            elif (isinstance(v, ast.Call) and isinstance(v.func, ast.Attribute) and v.func.attr == 'append'
+                    and isinstance(v.func.value, ast.Name) and v.func.value.id == 'stack' and len(v.args) == 1):
+                emitted = v.args[0]
+            if emitted is None:
+                raise Decline('unsupported expression statement %s' % ast.unparse(st))
+            line = '%slet out := %s :: %s' % (ind, self.expr(emitted, env), env['out'])
+            return [line] + self.block(rest, dict(env, out='out'), ind)
+        if isinstance(st, ast.If):
+            return ([ind + 'if %s then' % self.cond(st.test, env)] + self.block(list(st.body) + rest, env, ind + '  ')
+                    + [ind + 'else'] + self.block(list(st.orelse) + rest, env, ind + '  '))
+        raise Decline('unsupported statement %s' % type(st).__name__)
+
+
+def _function(tree, name):
+    fns = [f for f in tree.body if isinstance(f, ast.FunctionDef) and f.name == name]
+    if len(fns) != 1:
+        raise Decline('no unique function %s' % name)
+    return fns[0]
+
+
+def _nodoc(body):
+    return [st for st in body if not (isinstance(st, ast.Expr) and isinstance(getattr(st, 'value', None), ast.Constant))]
+
+
+def gen_lindig():
+    """`lindig.neighbors`: the code around the loop must be the expected text; the loop body is translated."""
+    tree = ast.parse(open(os.path.join(REPO, 'concepts', 'algorithms', 'lindig.py')).read())
+    fn = _function(tree, 'neighbors')
+    if [a.arg for a in fn.args.args] != ['objects'] or [a.arg for a in fn.args.kwonlyargs] != ['Objects']:
+        raise Decline('neighbors: signature changed')
+    body = _nodoc(fn.body)
+    head = [ast.unparse(st) for st in body[:-1]]
+    if head != ['doubleprime = Objects.doubleprime', 'minimal = ~objects'] or not isinstance(body[-1], ast.For):
+        raise Decline('neighbors: the code before the loop changed: %r' % head)
+    loop = body[-1]
+    if ast.unparse(loop.target) != 'add' or ast.unparse(loop.iter) != 'Objects.atomic(minimal)' or loop.orelse:
+        raise Decline('neighbors: loop header changed: for %s in %s' % (ast.unparse(loop.target), ast.unparse(loop.iter)))
+    tr = BodyTr(names={'objects': 'objects', 'add': 'add'}, funcs={'doubleprime': 'doubleprime'}, arrays=(),
+                state=['minimal', 'out'], emit_to='out')
+    lines = tr.block(list(loop.body), {'objects': 'objects', 'add': 'add', 'minimal': 'minimal', 'out': 'out'}, '  ')
+    out = ['import FCA.Model.Galois',
+           '/- GENERATED by harness/extract.py from concepts/algorithms/lindig.py (neighbors) — do not edit.',
+           '   `minimal = ~objects` is read as the in-domain mask; `a & ~b` as set difference. -/',
+           'namespace FCA.Generated', '',
+           '/-- body of `for add in Objects.atomic(minimal)`; `out` collects the yielded pairs, newest first -/',
+           'def neighbors_body (doubleprime : Nat → Nat × Nat) (objects add minimal : Nat) (out : List (Nat × Nat)) :',
+           '    Nat × List (Nat × Nat) :='] + lines + ['', 'end FCA.Generated', '']
+    return '\n'.join(out)
+
+
+def gen_fcbo():
+    tree = ast.parse(open(os.path.join(REPO, 'concepts', 'algorithms', 'fcbo.py')).read())
+    out = ['import FCA.Model.Galois',
+           '/- GENERATED by harness/extract.py from concepts/algorithms/fcbo.py — do not edit.',
+           '   Bodies of the inner `for j, j_x in reversed(j_atom[index:])` loops; the pushed tuple keeps the concept and',
+           '   the next index (the shared `next_*_sets` reference is dropped: every child reads the final list). -/',
+           'namespace FCA.Generated', '']
+    spec = {
+        'fast_generate_from': dict(
+            head=['n_properties = context.shape.properties', 'Properties = context._Properties',
+                  'j_atom = list(enumerate(Properties.supremum.atoms()))', 'Objects = context._Objects', 'prime = Objects.prime',
+                  'stack = [(Objects.supremum.doubleprime(), 0, [Properties.infimum] * n_properties)]'],
+            whead=['concept, property_index, property_sets = stack.pop()', 'yield concept', 'extent, intent = concept',
+                   'if property_index == n_properties or not extent:\n    continue',
+                   'next_property_sets = property_sets.copy()'],
+            target='(j, j_property)', iter='reversed(j_atom[property_index:])', sets='next_property_sets',
+            loopvars=['j', 'j_property'], read='context._extents'),
+        'fcbo_dual': dict(
+            head=['n_objects = context.shape.objects', 'Objects = context._Objects',
+                  'j_atom = list(enumerate(Objects.supremum.atoms()))', 'Properties = context._Properties', 'prime = Properties.prime',
+                  'stack = [(Objects.infimum.doubleprime(), 0, [Objects.infimum] * n_objects)]'],
+            whead=['concept, object_index, object_sets = stack.pop()', 'yield concept', 'extent, intent = concept',
+                   'if object_index == n_objects or not intent:\n    continue',
+                   'next_object_sets = object_sets.copy()'],
+            target='(j, j_object)', iter='reversed(j_atom[object_index:])', sets='next_object_sets',
+            loopvars=['j', 'j_object'], read='context._intents'),
+    }
+    for name, sp in spec.items():
+        fn = _function(tree, name)
+        if [a.arg for a in fn.args.args] != ['context']:
+            raise Decline('%s: signature changed' % name)
+        body = _nodoc(fn.body)
+        head = [ast.unparse(st) for st in body[:-1]]
+        if head != sp['head'] or not isinstance(body[-1], ast.While) or ast.unparse(body[-1].test) != 'stack' or body[-1].orelse:
+            raise Decline('%s: the code before the stack loop changed: %r' % (name, head))
+        wbody = body[-1].body
+        whead = [ast.unparse(st) for st in wbody[:-1]]
+        if whead != sp['whead'] or not isinstance(wbody[-1], ast.For):
+            raise Decline('%s: the code before the inner loop changed: %r' % (name, whead))
+        loop = wbody[-1]
+        tgt = ast.unparse(loop.target)
+        if tgt.strip('()') != sp['target'].strip('()') or ast.unparse(loop.iter) != sp['iter'] or loop.orelse:
+            raise Decline('%s: inner loop header changed: for %s in %s' % (name, tgt, ast.unparse(loop.iter)))
+        sets = sp['sets']
+        tr = BodyTr(names={}, funcs={'prime': 'prime'}, arrays=[sets], state=[sets, 'out'], emit_to='out',
+                    strip_calls=['Objects.fromint', 'Properties.fromint'], reads={sp['read']: 'col'}, drop_names=[sets])
+        env = {'extent': 'extent', 'intent': 'intent', sets: sets, 'out': 'out'}
+        env.update({v: v for v in sp['loopvars']})
+        lines = tr.block(list(loop.body), env, '  ')
+        out += ['/-- inner loop body of `%s` -/' % name,
+                'def %s_body (col : Nat → Nat) (prime : Nat → Nat) (extent intent %s : Nat) (%s : Array Nat)' % (name, ' '.join(sp['loopvars']), sets),
+                '    (out : List ((Nat × Nat) × Nat)) : Array Nat × List ((Nat × Nat) × Nat) :='] + lines + ['']
+    out += ['end FCA.Generated', '']
+    return '\n'.join(out)
+
+
 def write_if_changed(path, text):
     old = open(path).read() if os.path.exists(path) else None
     if old != text:
@@ -404,7 +604,8 @@ def regenerate(log=print):
     if REPO not in sys.path:
         sys.path.insert(0, REPO)
     status = {}
-    for name, fn in (('Predicates', gen_predicates), ('Junctors', gen_junctors), ('Formats', gen_formats), ('Loops', gen_loops)):
+    for name, fn in (('Predicates', gen_predicates), ('Junctors', gen_junctors), ('Formats', gen_formats), ('Loops', gen_loops),
+                     ('Lindig', gen_lindig), ('Fcbo', gen_fcbo)):
         path = os.path.join(GEN, name + '.lean')
         try:
             text = fn()
